@@ -363,10 +363,10 @@ bool StepExtended(ScriptExecutionEnvironment& env, CScript::const_iterator& pc, 
 
         {
             // begin
-            const CScriptNum begin(vch2, env.fRequireMinimal, 2);
+            const CScriptNum begin(vch2, env.fRequireMinimal);
             if (begin < 0) return set_error(serror, SCRIPT_ERR_UNKNOWN_ERROR);
             // size
-            const CScriptNum size(vch3, env.fRequireMinimal, 2);
+            const CScriptNum size(vch3, env.fRequireMinimal);
             if (size < 0 || begin + size > vch1.size()) return set_error(serror, SCRIPT_ERR_UNKNOWN_ERROR);
             if (begin > 0) {
                 vch1.erase(vch1.begin(), vch1.begin() + begin.getint());
@@ -389,7 +389,7 @@ bool StepExtended(ScriptExecutionEnvironment& env, CScript::const_iterator& pc, 
         vch2 = stacktop(-1);
         {
             // size
-            const CScriptNum size(vch2, env.fRequireMinimal, 2);
+            const CScriptNum size(vch2, env.fRequireMinimal);
             if (size < 0 || size > vch1.size()) return set_error(serror, SCRIPT_ERR_UNKNOWN_ERROR);
             if (size < vch1.size()) {
                 if (env.opcode == OP_LEFT) {
